@@ -168,7 +168,7 @@ def collision_tables(case, sig_a, sig_b):
     return c2
 
 
-COLLISION_KINDS = ['concat', 'integer', 'boolean', 'printable', 'datetime', 'langcase', 'langmix', 'dtmix']
+COLLISION_KINDS = ['concat', 'integer', 'boolean', 'printable', 'datetime', 'langcase', 'langmix', 'dtmix', 'fnpred', 'fngraph']
 
 
 def gen_collision_case(rng, kind=None):
@@ -208,6 +208,23 @@ def gen_collision_case(rng, kind=None):
             rows = [['1', '5', mapcase.XSD + 'token'], ['2', '7', mapcase.XSD + 'string'], ['3', '8', mapcase.XSD + 'token']]
             obj = {'m': tm('ref', 'x'), 'lang': None, 'dt': tm('const', mapcase.XSD + 'token'), 'joins': []}
             extra_obj = {'m': tm('ref', 'x'), 'lang': None, 'dt': tm('ref', 'y'), 'joins': []}
+    elif kind in ('fnpred', 'fngraph'):
+        # a FUNCTION-valued predicate (graph) map next to a constant one, the function returning that very constant for some rows: the two rules
+        # generate the same statement there, so they may not be put into different mapping groups (a function-valued map has no invariant)
+        GREL = 'http://users.ugent.be/~bjdmeest/function/grel.ttl#'
+        K = 'HTTP://EX.ORG/P/K'
+        rows = [['1', 'a', K.lower()], ['2', 'b', 'http://ex.org/p/other'], ['3', 'c', K.lower()]]
+        obj = {'m': tm('ref', 'x'), 'lang': None, 'dt': None, 'joins': []}
+        fm = tm('exec', EX + 'exec/F1', 'iri', 'iri')
+        cfg['mode'] = rng.choice(['PARTIAL-AGGREGATIONS', 'MAXIMAL'])
+        if kind == 'fngraph':
+            cfg['nquads'] = True
+        rng.shuffle(rows)
+        p_const = {'preds': [tm('const', K if kind == 'fnpred' else EX + 'p/p')], 'objs': [obj], 'graphs': [tm('const', K)] if kind == 'fngraph' else []}
+        p_fun = {'preds': [fm if kind == 'fnpred' else tm('const', EX + 'p/p')], 'objs': [json.loads(json.dumps(obj))], 'graphs': [tm('exec', EX + 'exec/F1')] if kind == 'fngraph' else []}
+        return {'cfg': cfg, 'sources': [{'key': 'S0', 'kind': 'csv', 'cols': ['k', 'x', 'y'], 'rows': rows}],
+                'doc': [{'id': EX + 'tm/TM0', 'src': 'S0', 'nonasserted': False, 'subj': subj, 'sjoins': [], 'classes': [], 'sgraphs': [], 'poms': [p_const, p_fun]}],
+                'execs': [{'id': EX + 'exec/F1', 'fun': GREL + 'toUpperCase', 'inputs': [[GREL + 'valueParam', 'ref', 'y']]}]}
     else:
         rows = [['1', 'a\x07b', 'u'], ['1', 'ab', 'v'], ['1', 'a\u200bb', 'w'], ['2', 'c', 'y']]
         obj = {'m': tm('ref', 'x'), 'lang': None, 'dt': None, 'joins': []}
